@@ -243,7 +243,7 @@ func tomlable(v interface{}) interface{} {
 	return v
 }
 
-var lineText = map[string]string{"kv": "K1=v1", "kempty": "K2=", "emptykey": "=v3", "nokv": "JUSTAKEY", "blank": "", "kvv": "K4=a=b", "comment": "# a comment", "spaces": "   ", "crlf": "K5=v5\r"}
+var lineText = map[string]string{"kv": "K1=v1", "kempty": "K2=", "emptykey": "=v3", "nokv": "JUSTAKEY", "blank": "", "kvv": "K4=a=b", "comment": "# a comment", "spaces": "   ", "crlf": "K5=v5\r", "dq": "K6=\"", "sq": "K7='", "quoted": "K8=\"v8\""}
 
 // CheckC15 is the engine behind C15.
 func CheckC15(env *core.Env, rep *core.Report) *core.Result {
@@ -259,8 +259,8 @@ func CheckC15(env *core.Env, rep *core.Report) *core.Result {
 		cases = append(cases, c)
 	}
 	e.note("Shapes", r, fmt.Sprintf("%d cases: (position, shape) over the configuration schema and env_file line sequences; Total holds", len(cases)))
-	if len(cases) != 1631 {
-		core.Broken("Shapes emitted %d cases, expected 1631", len(cases))
+	if len(cases) != 2696 {
+		core.Broken("Shapes emitted %d cases, expected 2696", len(cases))
 	}
 	sort.Slice(cases, func(i, j int) bool { return core.JSON(cases[i]) < core.JSON(cases[j]) })
 	var runs, skipped int64
@@ -544,7 +544,7 @@ func CheckC15(env *core.Env, rep *core.Report) *core.Result {
 	}
 	e.samples.Add(map[string]interface{}{"kind": "envfile", "lines": []string{"kv", "blank", "nokv"}, "predicted": "Rejected"})
 	return e.result("exploration", int(runs), distinct.N(),
-		"structural: every (position, shape) pair of Shapes.tla - positions = top-level keys, the four sections, one entry of each, every documented field of an entry; shapes = null, int, string, empty string, bool, list, map, list of maps, nested list, deleted, duplicated, unknown key - applied to a base document that uses every documented key, serialised to YAML (all) and JSON/TOML (quick 1/3, thorough all; shapes a format cannot express are skipped and counted) and given to list, show, graph, validate; env_file: line sequences of length <=3 over 9 line classes plus a missing file (quick: all of length <=2 and 1/8 of length 3), predicted accept/reject; byte level: truncation at every 1/16, invalid UTF-8 at three offsets, empty / NUL / deeply nested input, YAML anchors, merge keys and alias expansion. distinct_nontrivial = distinct (position, shape, format) and env_file cases executed",
+		"structural: every (position, shape) pair of Shapes.tla - positions = top-level keys, the four sections, one entry of each, every documented field of an entry; shapes = null, int, string, empty string, bool, list, map, list of maps, nested list, deleted, duplicated, unknown key - applied to a base document that uses every documented key, serialised to YAML (all) and JSON/TOML (quick 1/3, thorough all; shapes a format cannot express are skipped and counted) and given to list, show, graph, validate; env_file: line sequences of length <=3 over 12 line classes plus a missing file (quick: all of length <=2 and 1/8 of length 3), predicted accept/reject; byte level: truncation at every 1/16, invalid UTF-8 at three offsets, empty / NUL / deeply nested input, YAML anchors, merge keys and alias expansion. distinct_nontrivial = distinct (position, shape, format) and env_file cases executed",
 		map[string]interface{}{"cases_in_model": len(cases), "skipped_not_expressible": skipped, "byte_level_runs": byteRuns},
 		[]string{"'for all byte strings' is addressed structurally plus a fixed set of byte-level perturbations; no claim of coverage of arbitrary bytes",
 			"oracle: exit status 0 or 1, no panic / fatal error / goroutine dump, bounded time (8-10 s); accept/reject predicted only for unknown keys and env_file lines"})
